@@ -59,8 +59,10 @@ class BalancedMoveRule(BaseRule):
         ):
             return None
 
-        if isinstance(node.parent, MultiplyExpression) and isinstance(
-            node, ConstantExpression
+        if (
+            isinstance(node.parent, MultiplyExpression)
+            and isinstance(node, ConstantExpression)
+            and node.value != 0
         ):
             # NOTE: Don't allow divisions or multiplications if there are additions
             #       remaining on the same side of the equation
@@ -70,6 +72,12 @@ class BalancedMoveRule(BaseRule):
             return _TYPE_CONST_OF_MULTIPLY
 
         if isinstance(node.parent, AddExpression):
+            # Only top-level addends of a side can be moved across the equals sign
+            ancestor = node.parent
+            while isinstance(ancestor, AddExpression):
+                ancestor = ancestor.parent
+            if ancestor is not root:
+                return None
             if isinstance(node, ConstantExpression) or get_term_ex(node) is not None:
                 return _TYPE_ADDITION
 
